@@ -186,3 +186,79 @@ Theorem C11_unrank_rank :
          r < Factorial.fact 8 -> prefix_to_rank (rank_to_prefix r map1 ++ sfx) map2 = r.
 Proof. exact @unrank_rank. Qed.
 Print Assumptions C11_unrank_rank.
+
+From V Require Import Base Tensor Perm Codec CodecProofs Graph GraphProofs NumpyBfs NumpyBfsProofs NumpyEncodedProofs.
+
+(* END TO END, the term the harness evaluates: for permutation generators with a unique inverse each (np_inverse_index = Ok), one-word encoding of any width w with n*w <= 64 and ANY central state with entries below 2^w, bfs_numpy run on the library's GENERATED 1-D routines from the code of the central state returns the sizes of the true layers of the Schreier graph on STATES, truncated at the depth limit / first empty layer *)
+Theorem C11_numpy_bfs_encoded_growth :
+  forall w n : nat,
+         1 <= w <= 64 ->
+         n * w <= 64 ->
+         forall perms : list (list nat),
+         perms_ok n perms ->
+         forall idx : list nat,
+         np_inverse_index perms = Ok idx ->
+         forall (s0 : list BinNums.Z) (max_diameter : BinNums.N),
+         valid_state w n s0 ->
+         BinNat.N.le (BinNums.Npos BinNums.xH) max_diameter ->
+         bfs_numpy (List.map (fun p : list nat => eval_prog1d (emit w n p)) perms) idx 
+           (code w n s0) max_diameter =
+         take_nonzero
+           (List.map
+              (fun i : nat =>
+               length
+                 (layer (list BinNums.Z) state_eq_dec (List.map (apply_perm BinNums.Z0) perms)
+                    (s0 :: nil) i)) (List.seq 0 (S (BinNat.N.to_nat max_diameter)))).
+Proof. exact @numpy_bfs_encoded_growth. Qed.
+Print Assumptions C11_numpy_bfs_encoded_growth.
+
+(* inv_perm_idx maps every generator to THE index of its inverse *)
+Theorem C11_np_inverse_index_spec :
+  forall (perms : list (list nat)) (idx : list nat),
+         np_inverse_index perms = Ok idx ->
+         length idx = length perms /\
+         (forall i : nat,
+          i < length perms ->
+          List.nth i idx 0 < length perms /\
+          List.nth (List.nth i idx 0) perms nil = inverse_perm (List.nth i perms nil)).
+Proof. exact @np_inverse_index_spec. Qed.
+Print Assumptions C11_np_inverse_index_spec.
+
+(* and the engine asserts exactly when some generator's inverse is missing or occurs twice (the documented domain: distinct inverse-closed generators) *)
+Theorem C11_np_inverse_index_err_iff :
+  forall (perms : list (list nat)) (e : err),
+         np_inverse_index perms = Err e <->
+         e = AssertionErr /\
+         (exists p : list nat, List.In p perms /\ ~ (exists j : nat, unique_inverse_at perms p j)).
+Proof. exact @np_inverse_index_err_iff. Qed.
+Print Assumptions C11_np_inverse_index_err_iff.
+
+(* the generated 1-D routine IS the generator action on codes *)
+Theorem C11_emit1d_action :
+  forall w n : nat,
+         1 <= w <= 64 ->
+         n * w <= 64 ->
+         forall (p : list nat) (s : list BinNums.Z),
+         PermProofs.Perm p ->
+         length p = n ->
+         valid_state w n s ->
+         eval_prog1d (emit w n p) (code w n s) = code w n (apply_perm BinNums.Z0 p s).
+Proof. exact @emit1d_action. Qed.
+Print Assumptions C11_emit1d_action.
+
+(* layers are transported along an encoding that is injective on a closed set and commutes with the generators *)
+Theorem C11_layer_transport :
+  forall (A B : Type) (eqA : forall a b : A, {a = b} + {a <> b})
+           (eqB : forall a b : B, {a = b} + {a <> b}) (gs : list (A -> A)) 
+           (fs : list (B -> B)) (enc : A -> B) (U : A -> Prop),
+         length fs = length gs ->
+         closed A gs U ->
+         (forall a b : A, U a -> U b -> enc a = enc b -> a = b) ->
+         (forall (i : nat) (s : A),
+          i < length gs ->
+          U s -> List.nth i fs (fun b : B => b) (enc s) = enc (List.nth i gs (fun a : A => a) s)) ->
+         forall S0 : list A,
+         (forall s : A, List.In s S0 -> U s) ->
+         forall i : nat, layer B eqB fs (List.map enc S0) i = List.map enc (layer A eqA gs S0 i).
+Proof. exact @layer_transport. Qed.
+Print Assumptions C11_layer_transport.
